@@ -155,3 +155,72 @@ theorem withPayload_eq (bs : Bytes) (acc : Settings) (hne : bs ≠ []) :
     · rfl
 
 end Settings
+
+namespace Props.C05
+open Varint
+
+/-- the rest after a delivered frame / an ignorable frame is a suffix of the input -/
+theorem read_rest_suffix {bs rest : Bytes} {f : Frame} (h : Frame.read bs = .frame f rest) : ∃ c, bs = c ++ rest := by
+  unfold Frame.read at h
+  split at h
+  · cases h
+  · rename_i kindId r1 hd
+    obtain ⟨c1, hc1, _⟩ := dec_some_split hd
+    split at h
+    · split at h
+      · cases h
+      · unfold Frame.skipPayload at h; split at h <;> cases h
+    · split at h
+      · cases h
+      · rename_i sid r2 hd2
+        obtain ⟨c2, hc2, _⟩ := dec_some_split hd2
+        split at h
+        · cases h
+        · cases h; exact ⟨c1 ++ c2, by rw [hc1, hc2, List.append_assoc]⟩
+    · split at h
+      · cases h
+      · rename_i len r2 hd2
+        obtain ⟨c2, hc2, _⟩ := dec_some_split hd2
+        split at h
+        · split at h
+          · unfold Frame.skipPayload at h; split at h <;> cases h
+          · cases h
+        · split at h
+          · cases h
+          · cases h
+            exact ⟨c1 ++ c2 ++ r2.take len, by rw [hc1, hc2]; simp [List.append_assoc]⟩
+
+theorem skip_suffix {len : Nat} {r rest : Bytes} (h : Frame.skipPayload len r = .unknown rest) : ∃ c, r = c ++ rest := by
+  unfold Frame.skipPayload at h
+  split at h
+  · cases h
+  · cases h; exact ⟨r.take len, by simp⟩
+
+theorem read_unknown_suffix {bs rest : Bytes} (h : Frame.read bs = .unknown rest) : ∃ c, bs = c ++ rest := by
+  unfold Frame.read at h
+  split at h
+  · cases h
+  · rename_i kindId r1 hd
+    obtain ⟨c1, hc1, _⟩ := dec_some_split hd
+    split at h
+    · split at h
+      · cases h
+      · rename_i len r2 hd2
+        obtain ⟨c2, hc2, _⟩ := dec_some_split hd2
+        obtain ⟨c3, hc3⟩ := skip_suffix h
+        exact ⟨c1 ++ c2 ++ c3, by rw [hc1, hc2, hc3]; simp [List.append_assoc]⟩
+    · split at h
+      · cases h
+      · split at h <;> cases h
+    · split at h
+      · cases h
+      · rename_i len r2 hd2
+        obtain ⟨c2, hc2, _⟩ := dec_some_split hd2
+        split at h
+        · split at h
+          · obtain ⟨c3, hc3⟩ := skip_suffix h
+            exact ⟨c1 ++ c2 ++ c3, by rw [hc1, hc2, hc3]; simp [List.append_assoc]⟩
+          · cases h
+        · split at h <;> cases h
+
+end Props.C05
